@@ -214,6 +214,7 @@ def gen_plan(seed, tier):
 
 class SolverFaultsEngine(EngineBase):
     name = 'solverfaults'
+    shrink_time_budget_s = 90.0
     source_files = ['TidalPy/RadialSolver/solver.pyx', 'TidalPy/RadialSolver/boundaries/boundaries.pyx',
                     'TidalPy/RadialSolver/interfaces/interfaces.pyx', 'TidalPy/utilities/dimensions/nondimensional.pyx',
                     'TidalPy/RadialSolver/__init__.py']
@@ -336,7 +337,7 @@ class SolverFaultsEngine(EngineBase):
                 trace.append('%2d %s -> NO REPLY within %.0f s' % (i, label, REPLY_TIMEOUT_S))
                 replies.append(['timeout'])
                 bump('probe:worker_hang')
-                viol('hang', 'hang:%s' % ('r0_zero' if ctx['predicates'].get('r0_zero') else ctx['stack_class']),
+                viol('hang', 'hang:%s' % ('r0_bad' if ctx['predicates'].get('r0_bad') else ctx['stack_class']),
                      'step %d %s did not answer within %.0f s (solver work is bounded by max_num_steps); planet: %s'
                      % (i, label, REPLY_TIMEOUT_S, ctx['stack']), op=op['op'], **ctx['predicates'])
                 break
@@ -383,7 +384,11 @@ class SolverFaultsEngine(EngineBase):
         if spec:
             top = spec['layers'][-1]
             preds['top_layer'] = '%s-%s' % (top['type'], 'static' if top['static'] else 'dynamic')
-            preds['r0_zero'] = spec.get('r0_frac') == 0.0
+            total = sum(L['n'] for L in spec['layers'])
+            poisoned_first = any(pz['array'] == 'radius' and pz['index'] % max(total, 1) == 0 and pz['value'] in ('nan', 'zero', 'neg', 'inf')
+                                 for pz in (specs.get(pid, {}).get('poison') or []))
+            # the first radius is what the outward integration starts from
+            preds['r0_bad'] = bool(spec.get('r0_frac') == 0.0 or poisoned_first)
             preds['n_layers'] = len(spec['layers'])
             stack = '/'.join('%s-%s%s(n=%d)' % (L['type'], 'static' if L['static'] else 'dynamic', '-incomp' if L['incompressible'] else '', L['n'])
                              for L in spec['layers']) + ' r0_frac=%g' % spec.get('r0_frac', 0)
